@@ -20,6 +20,14 @@ func main() {
 		rt.WorkerLoop(func(job json.RawMessage) (any, error) { return p.Worker(job) })
 		return
 	}
+	if len(os.Args) >= 3 && os.Args[1] == "--racepass" {
+		// free-running pass of the E1 scenario bodies; meaningful in a binary built with -race (reports go to stderr)
+		rt.ScratchRoot()
+		n := props.RacePass(os.Args[2], 25)
+		rt.Cleanup()
+		fmt.Printf("racepass %s: %d free-running executions\n", os.Args[2], n)
+		return
+	}
 	if len(os.Args) < 3 {
 		fmt.Println("usage: vcheck <ID> <quick|thorough> | vcheck <ID> --replay <file>")
 		os.Exit(2)
